@@ -29,6 +29,9 @@ def handle (op : String) (c i : Json) : Except String (Json × String) := do
           -- errors other than the length error are C03's business (mux/container); a length error here is wrong
           match i.getObjVal? "err" with
           | .ok (Json.str "frameLength") => pure "fail: payload of acceptable length refused"
+          | .ok (Json.str e) =>
+            -- the declared error classes (multiplexing, container) are C03's business; anything else is a crash of the decoder
+            pure (if e.startsWith "exc:" then "fail: decoding a payload of acceptable length raised " ++ e else "ok")
           | _ => pure "ok"
         | .ok (Json.str _) => pure "ok"
         | .ok o =>
